@@ -7,6 +7,27 @@ from ..symx import choice, SymPyInt, SymStr, SymF64, SymI64, SymBool
 from ..tree import Arr, Frame, LoD, Raised
 from .common import BV, T, cell_ident, isna, kind_of, mk_col, summary_equal, KIND_DTYPE
 
+_US = {"D": 86400 * 10**6, "h": 3600 * 10**6, "m": 60 * 10**6, "s": 10**6, "ms": 1000, "us": 1}
+
+def _dt_same(cell, k, col, r):
+    """a date / datetime cell and row r of the column that came back denote the same instant or are both missing; the column
+    that comes back may have another unit (pandas: ns) or hold date objects (dtype is not promised for dates)"""
+    from ..symx import SymDT
+    missing = cell == symx.INT64_MIN
+    us = cell * _US[k]
+    oc = col.cells[r]
+    if col.dtype == "object":
+        if oc is None: return missing
+        if isinstance(oc, SymDT) and oc.unit in _US: return z3.And(z3.Not(missing), us == oc.e * _US[oc.unit])
+        return T(False)
+    if not col.dtype.startswith("datetime64["): return T(False)
+    unit = col.dtype[len("datetime64["):-1]
+    o_missing = oc == symx.INT64_MIN
+    if unit == "ns": same = us * 1000 == oc
+    elif unit in _US: same = us == oc * _US[unit]
+    else: return T(False)
+    return z3.Or(z3.And(missing, o_missing), z3.And(z3.Not(missing), z3.Not(o_missing), same))
+
 def same_frame_clauses(a, b, label, dtype_kinds=("b", "i", "f", "T")):
     """frame b (after the round trip) has the same names/order, values and missing positions as frame a, and the same
     dtype for bool/int/float/str columns with at least one non-missing value"""
@@ -21,7 +42,10 @@ def same_frame_clauses(a, b, label, dtype_kinds=("b", "i", "f", "T")):
             anyval = z3.Or([z3.Not(isna(c, ka)) for c in ca.cells] or [T(False)])
             cl.append((f"{label}: {nm} keeps its dtype ({ca.dtype} -> {cb.dtype}) when it has a non-missing value", z3.Implies(anyval, T(ca.dtype == cb.dtype))))
         for r in range(len(ca)):
-            cl.append((f"{label}: {nm}[{r}] same value / missing position", summary_equal(ca.cells[r], ka, cb.cells[r], kb)))
+            if ka in _US and ka != kb:
+                cl.append((f"{label}: {nm}[{r}] same instant / missing position", _dt_same(ca.cells[r], ka, cb, r)))
+            else:
+                cl.append((f"{label}: {nm}[{r}] same value / missing position", summary_equal(ca.cells[r], ka, cb.cells[r], kb)))
     return cl
 
 class Convert(Harness):
@@ -128,6 +152,41 @@ class Import(Harness):
                     cl.append((f"{nm}[{r}]: value unchanged", z3.Or(mask.cells[r], eq)))
         return cl
 
+class Export(Harness):
+    """dataiter's side of to_pandas / to_arrow: one list per column, in column order and under its name, None exactly at
+    the missing positions and the stored value elsewhere (the foreign constructors are recorders)"""
+    prop = "C13"; opname = "df_export"
+    def __init__(self, kind, kinds, maxn):
+        self.kind = kind; self.kinds = kinds; self.maxn = maxn
+        self.name = f"C13.to_{kind}.{'+'.join(kinds)}.n{maxn}"
+        self.bounds = {"rows": f"1..{maxn}", "column dtypes": [KIND_DTYPE[k] for k in kinds]}
+        self.symbolic = ["all cells (missing values anywhere)"]; self.choice_dims = ["nrow"]
+        self.goals = [f"data_frame.py:DataFrame.to_{kind}", "vector.py:Vector.tolist"]
+    def build(self, ctx):
+        n = choice("n", range(1, self.maxn + 1))
+        return {"data": Frame({f"c{j}": mk_col(k, n, f"c{j}") for j, k in enumerate(self.kinds)}), "kind": self.kind}
+    def spec(self, inp, out):
+        if isinstance(out, Raised): return [(f"does not raise ({out.type}: {out.msg[:80]})", T(False))]
+        from .c07 import scalar_kind
+        data = inp["data"]; n = len(next(iter(data.cols.values())))
+        cl = [("returns what the library constructor returned", T(out["returned_library_object"] is True)),
+              ("column names handed over in column order", T(out["names"] == data.names)),
+              ("one sequence per column", T(isinstance(out["cols"], list) and len(out["cols"]) == len(data.names))),
+              ("no further arguments to the constructors", T(out["extra_args"] == 0))]
+        if not (isinstance(out["cols"], list) and len(out["cols"]) == len(data.names)): return cl
+        for nm, vals in zip(data.names, out["cols"]):
+            col = data.cols[nm]; k = kind_of(col)
+            cl.append((f"{nm}: one element per row", T(len(vals) == n)))
+            if len(vals) != n: continue
+            for r, v in enumerate(vals):
+                cl.append((f"{nm}[{r}]: None iff the cell is missing", isna(col.cells[r], k) == T(v is None)))
+                if v is not None:
+                    oc, ok = scalar_kind(v)
+                    if ok == "M": ok = k
+                    cl.append((f"{nm}[{r}]: the stored value", z3.Or(isna(col.cells[r], k), summary_equal(col.cells[r], k, oc, ok))))
+        cl += [(f"receiver unchanged: {lab}", c) for lab, c in same_frame_clauses(data, out["recv"], "receiver")]
+        return cl
+
 class ForeignRoundTrip(Harness):
     """observed only: the real pandas / pyarrow in the loop (their type inference is C code)"""
     prop = "C13"; opname = "df_foreign_roundtrip"; observed_only = True
@@ -140,6 +199,31 @@ class ForeignRoundTrip(Harness):
     def build(self, ctx):
         n = choice("n", range(1, self.maxn + 1))
         return {"data": Frame({f"c{j}": mk_col(k, n, f"c{j}") for j, k in enumerate(self.kinds)}), "kind": self.kind}
+    def probes(self, inp):
+        # the real pandas / pyarrow are in the loop only on replayed inputs: aim a few at the corners
+        pr = []
+        for nm, col in inp["data"].cols.items():
+            k = kind_of(col); cs = col.cells
+            na = [isna(c, k) for c in cs]
+            if k in ("f", "T", "D", "us"):
+                pr.append((f"{nm}: first row missing, another present", z3.And(na[0], z3.Or(na[1:] + [T(False)]) == T(False), T(len(cs) > 1))))
+                pr.append((f"{nm}: all missing", z3.And(na)))
+                pr.append((f"{nm}: only the last row missing", z3.And([z3.Not(x) for x in na[:-1]] + [na[-1]])))
+            if k == "f":
+                pr.append((f"{nm}: infinite value", z3.Or([z3.fpIsInf(c) for c in cs])))
+                pr.append((f"{nm}: negative zero", z3.Or([z3.And(z3.fpIsZero(c), z3.fpIsNegative(c)) for c in cs])))
+                pr.append((f"{nm}: integral values only", z3.And([z3.And(z3.Not(z3.fpIsNaN(c)), z3.Not(z3.fpIsInf(c)), c == z3.fpRoundToIntegral(z3.RTZ(), c)) for c in cs])))
+            if k == "i":
+                pr.append((f"{nm}: INT64_MIN", z3.Or([c == symx.INT64_MIN for c in cs])))
+                pr.append((f"{nm}: beyond 2**53", z3.Or([c > 2**53 + 1 for c in cs])))
+                pr.append((f"{nm}: zeros and ones only", z3.And([z3.Or(c == 0, c == 1) for c in cs])))
+            if k == "T":
+                pr.append((f"{nm}: a string of 50+ characters", z3.Or([c.tail for c in cs])))
+                pr.append((f"{nm}: non-ASCII first character", z3.Or([z3.And(z3.UGE(c.n, 1), z3.UGT(c.ch[0], 0x7F)) for c in cs])))
+                pr.append((f"{nm}: digits only", z3.And([z3.And(c.n == 1, c.ch[0] >= 0x30, c.ch[0] <= 0x39, z3.Not(c.tail)) for c in cs])))
+            if k == "b":
+                pr.append((f"{nm}: all False", z3.And([z3.Not(c) for c in cs])))
+        return pr
     def spec(self, inp, out):
         if isinstance(out, Raised): return [(f"does not raise ({out.type}: {out.msg[:80]})", T(False))]
         return same_frame_clauses(inp["data"], out["back"], f"{self.kind} round trip")
@@ -150,8 +234,12 @@ def harnesses(tier):
     hs = [Convert("lod", ["f", "T"], n), Convert("lod", ["i", "b"], n), Convert("json", ["f", "T"], n), Convert("json", ["i", "b"], n)]
     if not q: hs += [Convert("lod", ["D", "us"], n)]
     for kind in ("pandas", "arrow"):
+        hs.append(Export(kind, ["T", "f"], n))
+        hs.append(Export(kind, ["i", "b"] if q else ["i", "b", "D"], n))
+        if not q: hs.append(Export(kind, ["us", "td"], n))
         hs.append(Import(kind, ["T", "f"], n))
         hs.append(Import(kind, ["i", "Ob"], n))
         hs.append(ForeignRoundTrip(kind, ["T", "f"], n))
         hs.append(ForeignRoundTrip(kind, ["i", "b"], 2))
+        if not q: hs.append(ForeignRoundTrip(kind, ["D", "us"], 2))
     return hs
